@@ -1306,6 +1306,23 @@ func (fc *FnCtx) sendTo(fr *frame, st *State, from, to *ssa.BasicBlock, incoming
 		fc.loopBack(fr, st, fr.loops[to])
 		return
 	}
+	// a rotated loop (test at the end of the body) is left from its latch block: the invariant is
+	// then needed in the state after the body although the back edge is not taken. It is checked
+	// there (loopN.invK.exit) and assumed on the exit edge.
+	for _, s2 := range from.Succs {
+		if s2 != to && isBackEdge(from, s2) {
+			if li := fr.loops[s2]; li != nil && !li.blocks[to] {
+				if ls := fc.loopSpec(fr, li); ls != nil {
+					env := fc.loopEnv(fr, st, li)
+					for i, inv := range ls.Invariants {
+						g := fc.evalBool(env, inv)
+						fc.oblige(st, fmt.Sprintf("loop%d.inv%d.exit", li.ord, i), g, blockPos(li.header), inv.Text+" (on leaving the loop after an iteration)")
+						fc.assume(st, g)
+					}
+				}
+			}
+		}
+	}
 	incoming[to] = append(incoming[to], inEdge{from, st})
 }
 
